@@ -328,7 +328,7 @@ PROPS["C19"] = {
     "design_ref": "DESIGN.md section 5 (C19)",
     "explanation": "Real gnet.go / eventloop_unix.go code from go/ssa; channels and select are executed by a minimal sequential channel model.",
     "bounds": {"stop_poll_iterations": "<= 8 (unwinding bound, environment-driven)", "handle_states": 4},
-    "outside": ["concurrent control calls", "Register/Enroll worker goroutine and result channel"],
+    "outside": ["concurrent control calls", "Register/Enroll worker goroutine and result channel on the success path (the error paths of the Enroll worker are executed with the pool's Submit redirected to a synchronous call: exactly one result, then the channel is closed)"],
     "assumptions": ["time.Ticker opaque", "shutdown completion modelled as a monotone flag"],
     "units": [dict(_LOOP_COMMON, name="control", files=["harness/gnet/vloop_world.go", "harness/gnet/c14_pick.go", "harness/gnet/c19_control.go"],
                    rewrites=dict(_LOOP_REWRITES, **{"gnet.go": _gnet_stop_rewrite}), cfg={"vcfg": {"nodes": 1}})],
@@ -466,6 +466,7 @@ def _patch_units():
         open(out, "w").write(t + "\nvar _ = goroutine.DefaultWorkerPool // keep the import alive (verification overlay)\n")
     enroll_rw = dict(_LOOP_REWRITES, **{"eventloop_unix.go": el_enroll, "client_unix.go": _vk_redirect([("socket.Dup(int(fd))", "vk.DupIn(int(fd))"), ("socket.SetSendBuffer(", "vk.SockOpt("), ("socket.SetRecvBuffer(", "vk.SockOpt("), ("socket.SetNoDelay(", "vk.SockOpt("), ("unix.Close(", "vk.Close(")])})
     PROPS["C07"]["units"].append(dict(_LOOP_COMMON, name="loop-enroll", files=["harness/gnet/vloop_world.go", "harness/gnet/c14_pick.go", "harness/gnet/c07_enroll.go"], rewrites=enroll_rw, cfg={"vcfg": {"nodes": 1}}))
+    PROPS["C19"]["units"].append(dict(_LOOP_COMMON, name="loop-enroll-c19", files=["harness/gnet/vloop_world.go", "harness/gnet/c14_pick.go", "harness/gnet/c07_enroll.go"], rewrites=enroll_rw, cfg={"vcfg": {"nodes": 1}}))
     PROPS["C15"]["units"].append(dict(_LOOP_COMMON, name="loop-assign", files=["harness/gnet/vloop_world.go", "harness/gnet/c14_pick.go", "harness/gnet/c15_assign.go"], cfg={"vcfg": {"nodes": 1}}))
 
 
